@@ -21,12 +21,19 @@ def install_split_theory(reg, G):
     reg.globals['multivariate_normal'] = Lib('multivariate_normal')
     reg.globals['ellipsoids_overlap'] = Lib('ellipsoids_overlap')
     reg.globals['Ellipsoid'] = reg.global_name('Ellipsoid')
-    L['GaussianMixture'] = lambda ex, st, a, k, n: Opaque('gmm')
-    L['gmm.fit'] = lambda ex, st, a, k, n: Opaque('gmmfit')
+    def gmm(ex, st, a, k, n):
+        return Opaque('gmm')
+    gmm.any_kwargs = True       # the clustering is havoc whatever its settings
+    L['GaussianMixture'] = gmm
+    def gmm_fit(ex, st, a, k, n):
+        return Opaque('gmmfit')
+    gmm_fit.any_kwargs = True
+    L['gmm.fit'] = gmm_fit
 
     def logpdf(ex, st, args, kw, node):
         p = ex.deref(st, args[0])
         return st.alloc(A.fresh_arr(st, 'real', 'logpdf', n=p.n), 'logpdf')
+    logpdf.any_kwargs = True    # arbitrary real scores whatever mean / cov
     L['multivariate_normal.logpdf'] = logpdf
 
     def overlap(ex, st, args, kw, node):
